@@ -57,16 +57,20 @@ fn gen_planted<R: SimRing>(rng: &mut Rng) -> Value
 where
     for<'x> &'x R: RingOps<R>,
 {
-    let len = 1 + rng.below(6) as usize; // degrees 0..=len, len differentials d_0..d_{len-1} (+ zero d_len)
+    // "dense" knob (fields only, where entries cannot grow): one short complex whose differential
+    // is a dense matrix of rank 20-40 - the reducer then finds about one pivot per round and needs
+    // dozens of rounds in one degree (long chains of transfer maps)
+    let dense = R::Ref::is_field() && R::NAME != "Q" && rng.chance(1, 12);
+    let len = if dense { 1 + rng.below(2) as usize } else { 1 + rng.below(6) as usize }; // degrees 0..=len, len differentials d_0..d_{len-1} (+ zero d_len)
     loop {
         // elementary summands: (deg, kind) kind 0: R at deg; 1: R -u-> R from deg to deg+1; 2: R -c-> R
         let mut ranks = vec![0usize; len + 1];
         let mut pairs: Vec<(usize, usize, usize, R::Ref)> = vec![]; // (deg, src idx, tgt idx, coeff)
         // size is a knob: one run in four is large enough for the parallel pivot phase to matter
-        let nsum = if rng.chance(1, 4) { 12 + rng.below(30) as usize } else { 2 + rng.below(14) as usize };
+        let nsum = if dense { 20 + rng.below(21) as usize } else if rng.chance(1, 4) { 12 + rng.below(30) as usize } else { 2 + rng.below(14) as usize };
         for _ in 0..nsum {
-            let kind = rng.below(5);
-            let d = rng.below(len as u64 + 1) as usize;
+            let kind = if dense { 1 + rng.below(2) } else { rng.below(5) };
+            let d = if dense { 0 } else { rng.below(len as u64 + 1) as usize };
             if kind == 0 || d == len {
                 ranks[d] += 1;
             } else {
@@ -91,7 +95,7 @@ where
         };
         let mut ps = vec![];
         for i in 0..=len {
-            let ops = if rng.chance(1, 6) { 0 } else if rng.chance(1, 3) { (ranks[i] as u64 * (2 + rng.below(3))) as usize } else { (ranks[i] as u64 * (1 + rng.below(3)) / 2) as usize };
+            let ops = if dense { ranks[i] * 6 } else if rng.chance(1, 6) { 0 } else if rng.chance(1, 3) { (ranks[i] as u64 * (2 + rng.below(3))) as usize } else { (ranks[i] as u64 * (1 + rng.below(3)) / 2) as usize };
             ps.push(unimodular::<R::Ref>(rng, ranks[i], ops, &small));
         }
         let ds: Vec<DM<R::Ref>> = (0..len).map(|i| ps[i + 1].0.mul(&ds[i]).mul(&ps[i].1)).collect();
@@ -115,7 +119,7 @@ where
             vecs.push(json!([d, es]));
         }
         // what to do
-        let mode = *rng.pick(&["reduce", "reduce", "steps", "steps", "reduced"]);
+        let mode = if dense { *rng.pick(&["reduce", "reduced"]) } else { *rng.pick(&["reduce", "reduce", "steps", "steps", "reduced"]) };
         let mut steps = vec![];
         if mode == "steps" {
             for _ in 0..(1 + rng.below(8)) {
@@ -374,13 +378,36 @@ impl Check for C08 {
     fn max_steps(&self) -> usize { 2_000_000 }
     fn runs(&self, tier: &str) -> u64 { if tier == "quick" { 30_000 } else { 1_500_000 } }
     fn gen_case(&self, rng: &mut Rng, _idx: u64, _tier: &str) -> Value {
-        let ring = *rng.pick(&["Z", "Z", "Z", "Q", "F2", "F3", "ZH"]);
+        if rng.chance(1, 60) {
+            // a single fully dense differential over F3 (every entry a unit): every row covers every
+            // column, so each reduction round finds exactly one pivot and the reducer needs as many
+            // rounds as the rank - the longest chains of transfer maps a small input can produce
+            let big_z = rng.chance(1, 3);
+            let (m, n) = if big_z { (18 + rng.below(20) as usize, 18 + rng.below(20) as usize) } else { (30 + rng.below(45) as usize, 30 + rng.below(45) as usize) };
+            let mut es = vec![];
+            // over F7 only a third of the units are +-1, the default strategy pivots on those only and
+            // a dense row occupies every column: few pivots per round, dozens of rounds;
+            // over Z (arbitrary precision) most entries are non-units and the rounds stop earlier
+            for i in 0..m { for j in 0..n {
+                if big_z {
+                    let v = if rng.chance(1, 7) { *rng.pick(&[1i64, -1]) } else { *rng.pick(&[2i64, -2, 3, -3, 5, -5, 7]) };
+                    es.push(json!([i, j, v]));
+                } else {
+                    es.push(json!([i, j, 1 + rng.below(6)]));
+                }
+            } }
+            let mats = vec![json!({ "m": m, "n": n, "entries": es }), json!({ "m": 0, "n": m, "entries": [] })];
+            let mode = *rng.pick(&["reduce", "reduced"]);
+            return json!({ "ring": if big_z { "ZB" } else { "F7" }, "len": 1, "mats": mats, "vecs": [], "mode": mode, "steps": [], "with_trans": true });
+        }
+        let ring = *rng.pick(&["Z", "Z", "ZB", "Q", "F2", "F3", "F3", "ZH"]);
         let simplicial = rng.chance(1, 5) && ring != "ZH";
         fn planted<R: SimRing>(rng: &mut Rng, simplicial: bool) -> Value where for<'x> &'x R: RingOps<R> {
             if simplicial { gen_simplicial::<R>(rng) } else { gen_planted::<R>(rng) }
         }
         match ring {
             "Z" => planted::<i64>(rng, simplicial),
+            "ZB" => planted::<num_bigint::BigInt>(rng, simplicial),
             "Q" => planted::<yui::Ratio<i64>>(rng, simplicial),
             "F2" => planted::<yui::FF<2>>(rng, simplicial),
             "F3" => planted::<yui::FF<3>>(rng, simplicial),
@@ -390,9 +417,11 @@ impl Check for C08 {
     fn run_case(&self, case: &Value, ex: &mut Executor) -> RunReport {
         match case["ring"].as_str().unwrap() {
             "Z" => run_typed::<i64>(case, ex),
+            "ZB" => run_typed::<num_bigint::BigInt>(case, ex),
             "Q" => run_typed::<yui::Ratio<i64>>(case, ex),
             "F2" => run_typed::<yui::FF<2>>(case, ex),
             "F3" => run_typed::<yui::FF<3>>(case, ex),
+            "F7" => run_typed::<yui::FF<7>>(case, ex),
             _ => run_typed::<yui::poly::Poly<'H', i64>>(case, ex),
         }
     }
